@@ -135,12 +135,12 @@ def run(ctx):
     cfg = ctx.cfg(du)
     brk = [x for x in cfg.nodes if x.kind == 'stmt' and
            isinstance(x.ast, ast.Break)]
-    okb = False
-    for b in brk:
-        g = [(norm(t), pol) for (t, pol, _g) in cfg.guards(b)
-             if isinstance(t, ast.expr)]
-        okb = ('not execs', True) in g
+    INb, kb = sd.analyze(cfg, du, [('execs', (None, OBJ))])
+    okb = bool(brk) and all(
+        sd.values_at(INb, kb, b, 'execs') == {None} for b in brk)
     dcall = U.calls_in(cfg, '_delete')
+    okb = okb and bool(dcall) and \
+        sd.values_at(INb, kb, dcall[0][0], 'execs') == {OBJ}
     r2.check(okb and bool(dcall) and norm(dcall[0][1].args[0]) == 'execs'
              and any(isinstance(x, ast.Assign) and
                      dotted(x.targets[0]) == 'execs' and
